@@ -18,8 +18,69 @@ DEREF_LIKE = re.compile(
     r"|Try>::branch$|Iterator>::next$|IntoIterator>::into_iter$|::from$|::into$")
 
 
+def _normal_graph(b):
+    """successor lists with error continuations removed: an edge into a block from which no normal (non-error) return is
+    reachable is dropped, so `x?;` and `return Err(..)` do not make everything after them control dependent on x"""
+    if getattr(b, "_normal_graph", None) is not None:
+        return b._normal_graph
+    from . import ordering as od
+    okb, errb = od.ret_kind_blocks(b)
+    n = len(b.blocks)
+    rets = [i for i in b.reachable if b.term(i)["k"] == "return"]
+    # blocks that can reach a normal return: backward closure from ok-assigning blocks (or from returns when nothing is classified)
+    good = set()
+    seeds = set(okb) if okb else set(rets)
+    # a block in errb assigns an error result: do not walk back through it from the shared return block
+    work = list(seeds)
+    preds = b.preds
+    while work:
+        x = work.pop()
+        if x in good:
+            continue
+        good.add(x)
+        for p in preds[x]:
+            if p not in good and p not in errb:
+                work.append(p)
+    # forward part: blocks after the ok assignment up to the return
+    for s0 in list(seeds):
+        st = [s0]
+        while st:
+            x = st.pop()
+            for y in b.succs[x]:
+                if y not in good:
+                    good.add(y)
+                    st.append(y)
+    succs = [[y for y in b.succs[i] if y in good] for i in range(n)]
+    b._normal_graph = (succs, good)
+    return b._normal_graph
+
+
+def _pdom_normal(b):
+    if getattr(b, "_pdom_normal", None) is not None:
+        return b._pdom_normal
+    succs, good = _normal_graph(b)
+    n = len(b.blocks)
+    exitn = n
+    sx = [list(s) for s in succs] + [[]]
+    for i in range(n):
+        if b.term(i)["k"] == "return":
+            sx[i].append(exitn)
+    px = [[] for _ in range(n + 1)]
+    for i, ss in enumerate(sx):
+        for y in ss:
+            px[y].append(i)
+    b._pdom_normal = b._compute_dom({exitn}, px, sx, n + 1)
+    return b._pdom_normal
+
+
 def controlling_switches(b, bb):
-    """switch blocks S such that bb is transitively control dependent on S (normal edges, virtual exit at returns)"""
+    """switch blocks S such that bb is transitively control dependent on S, over the normal-flow graph (error exits removed;
+    virtual exit at returns)"""
+    succs, good = _normal_graph(b)
+    pdom = _pdom_normal(b)
+
+    def postdom(a, c):
+        return bool(pdom[c] >> a & 1)
     out = set()
     work = [bb]
     seen = set()
@@ -30,15 +91,13 @@ def controlling_switches(b, bb):
         seen.add(x)
         for s in b.reachable:
             t = b.term(s)
-            if t["k"] != "switch" or b.blocks[s]["cleanup"]:
+            if t["k"] != "switch" or b.blocks[s]["cleanup"] or s == x:
                 continue
-            if s == x:
-                continue
-            succs = b.succs[s]
-            if len(succs) < 2:
+            ss = [y for y in succs[s] if not b.is_unreachable_blk(y)]
+            if len(ss) < 2:
                 continue
             # x is control dependent on s: x post-dominates some successor of s (or is it), but not every successor
-            pd = [(y == x or b.postdominates(x, y)) for y in succs if not b.is_unreachable_blk(y)]
+            pd = [(y == x or postdom(x, y)) for y in ss]
             if any(pd) and not all(pd):
                 if s not in out:
                     out.add(s)
